@@ -74,7 +74,21 @@ func (e *runEnv) buildShared() {
 	}
 	e.objs = make([]*Object, len(e.p.Objects))
 	for i, s := range e.p.Objects {
-		e.objs[i] = NewObject(s)
+		if s.CopyOf == 0 {
+			e.objs[i] = NewObject(s)
+		}
+	}
+	for i, s := range e.p.Objects {
+		// by-value copies are made before anything is used
+		if s.CopyOf > 0 {
+			if src := s.CopyOf - 1; src < len(e.objs) && e.objs[src] != nil {
+				e.objs[i] = e.objs[src].ShallowCopy()
+			} else {
+				e.objs[i] = NewObject(s)
+			}
+		}
+	}
+	for i, s := range e.p.Objects {
 		if i < len(e.p.Primed) && e.p.Primed[i] {
 			// steady state: one call on a private copy of every datum before sharing
 			for _, d := range e.specs {
@@ -845,6 +859,17 @@ func GenSchedPlan(seed uint64, idx int, prop string) *plan.SchedPlan {
 		p.Primed = append(p.Primed, r.Chance(0.4))
 		base[i] = di
 	}
+	if prop == "C12" && nObj > 0 && (h>>32)%8 == 0 {
+		// one shared object also exists as a by-value copy made before first use
+		src := int((h >> 40) % uint64(nObj))
+		c := p.Objects[src]
+		c.CopyOf = src + 1
+		p.Objects = append(p.Objects, c)
+		p.Primed[src] = false
+		p.Primed = append(p.Primed, false)
+		base = append(base, base[src])
+		nObj++
+	}
 	// a filter is meant for a container type "or its element type": give it a
 	// sibling container of the same kind (array, slice, map) but another
 	// element type to be executed on as well
@@ -1075,6 +1100,15 @@ func genHammer(p *plan.SchedPlan, r *plan.Rand, uniq string, k int) *plan.SchedP
 	}
 	p.Objects = []ObjSpec{obj}
 	p.Primed = []bool{r.Chance(0.2)}
+	nShared := 1
+	if obj.Kind == "evaluator" && r.Chance(0.12) {
+		// the callers use by-value copies of one evaluator, made before first use
+		c := obj
+		c.CopyOf = 1
+		p.Objects = append(p.Objects, c)
+		p.Primed = []bool{false, false}
+		nShared = 2
+	}
 	kind := "eval"
 	if obj.Kind == "filter" {
 		kind = "exec"
@@ -1088,7 +1122,7 @@ func genHammer(p *plan.SchedPlan, r *plan.Rand, uniq string, k int) *plan.SchedP
 			ops = append(ops, plan.SOp{Kind: "create", Obj: -1, Datum: -1, New: &o})
 		}
 		for j := 0; j < nOps; j++ {
-			op := plan.SOp{Kind: kind, Obj: 0, Datum: (t + j) % nData}
+			op := plan.SOp{Kind: kind, Obj: t % nShared, Datum: (t + j) % nData}
 			if withCreate && r.Chance(0.5) {
 				op.Local = true
 			}
